@@ -338,7 +338,7 @@ class Cleanup:
     @staticmethod
     def suppress_sys_path_injection(
         source: str,
-        sub: Callable = regex.compile(r'(?m)^__import__\("sys"\)\.path\[0:0\] = .+\n').sub,
+        sub: Callable = regex.compile(r'(?m)^__import__\("sys"\)\.path\[0:0\] = .+\n?').sub,
     ) -> str:
         """Suppress lines starting with `__import__("sys").path[0:0] = `.
 
